@@ -465,12 +465,15 @@ BUDGET = {
 EVIDENCE = {
     "level": "exploration",
     "rule": (
-        "Seeded message histories: (i) hand-built ContextResults over disjoint contiguous row layouts (partitions, gaps, "
-        "all-covering + empty, single) for 1-6 (stream, module, test) keys incl. the same test name in two modules and two streams, "
-        "failed calls (no CallResult), multi-result messages, absent axes as size-0 arrays, read-only source arrays; (ii) real "
-        "ContextResults yielded by pandas/numpy/xarray/netcdf streams over disjoint-window configs. Each history is delivered "
-        "through a lazy iterator in 2-4 seeded orders to both collectors under the dirty allocator. Non-trivial: more than one "
-        "message and more than one order. Distinct: distinct (digest of all collected outcomes, digest of the delivery orders)."
+        "Seeded message histories, each executed in its own forked process: (i) hand-built ContextResults over disjoint contiguous row "
+        "layouts (partitions, gaps, all-covering + empty, single) for 1-6 (stream, module, test) keys incl. the same test name in two "
+        "modules and two streams, failed calls (no CallResult), multi-result messages, absent axes as size-0 arrays, read-only source "
+        "arrays, uint8 / int64 flags; (ii) real ContextResults yielded by pandas / numpy / xarray / netcdf streams over disjoint-window "
+        "configs (incl. permuted indexes, non-chronological rows, sub-second and nanosecond clocks with nanosecond window bounds, a first "
+        "run + Config.add() + the collected second run). Each history is delivered through a lazy iterator in 2-4 seeded orders to both "
+        "collectors under the dirty allocator; messages are re-read afterwards. For (ii) the collected flags are also compared end to end "
+        "with the reference window model + direct calls, and the collected keys with the configured tests. Non-trivial: more than one "
+        "message and more than one order. Distinct: distinct (digest of all collected outcomes, digest of the delivery orders). "
     ),
     "real": ["ioos_qc.results.collect_results / collect_results_list / collect_results_dict", "ContextResult / CallResult / CollectedResult", "stream front ends (source ii)"],
     "stub": ["hand-built ContextResults (source i)", "dirty allocator wrappers", "delivery scheduler (seeded permutations through a generator)"],
